@@ -117,13 +117,21 @@ def setup(ctx):
     def kf_d15(f):
         return f["clause"] in ("bar-grid", "duration") and has_tail([[tuple(m) for m in t] for t in f["input"]["tracks"]])
 
+    import json as _json
+    import os as _os
+    with open(_os.path.join(_os.path.dirname(_os.path.dirname(_os.path.dirname(_os.path.abspath(__file__)))), "known_findings.json")) as _f:
+        _short = next(x for x in _json.load(_f)["findings"] if x["id"] == "D16")["velocity_bins_short_top"]
+
     def kf_d16(f):
         # exactly what fails on the unchanged tree: the top bin lies below 127 and a louder note makes tokenise raise IndexError.
         # (Bins that merely repeat 127 do not disturb the round trip: a duplicate key is overwritten and both ids decode to it —
         # any round-trip failure there is NOT this finding.)
+        n = f["input"]["cfg"].get("velocity_bins", 1)
+        if n not in _short:
+            return False          # recorded data: the bin counts whose top bin lies below 127 on the unchanged tree
         bins = list(P.TkCfg(**f["input"]["cfg"]).tk().velocity_bins)
         loud = any(m[0] == ON and (m[4] or 0) > max(bins) for t in f["input"]["tracks"] for m in t)
-        return d16_bins(bins) and max(bins) < 127 and loud and f["clause"] == "tokenise-raises" and "IndexError" in f["detail"]
+        return loud and f["clause"] == "tokenise-raises" and "IndexError" in f["detail"]
     ctx.kf_predicates["D15"] = kf_d15
     ctx.kf_predicates["D16"] = kf_d16
 
